@@ -324,6 +324,12 @@ impl<'e> EventLoop<'e> {
                 if crate::common::constants::IO_URING_TIMEOUT_USERDATA == token {
                     continue;
                 }
+                // A zero-copy send posts a second completion that only says its buffer is
+                // free again. It carries no result, and by the time it arrives the caller
+                // may already be inside its next call under the same token.
+                if io_uring::cqueue::notif(cqe.flags()) {
+                    continue;
+                }
                 // resolve completed read/write tasks
                 let result = c_longlong::from(cqe.result());
                 if let Some((_, pair)) = self.syscall_wait_table.remove(&token) {
